@@ -20,6 +20,8 @@ int g_view_n, g_view_fail_at = -1, g_sync_fail;
 int g_rank, g_nprocs = 1;
 long long g_agreed_ll[G_COLL_MAX];
 int g_get_count = -1;
+unsigned char g_file[G_FILE_MAX]; long long g_file_len; int g_file_mode;
+long long g_last_got = -1;
 long long g_last_io_bytes;
 unsigned char g_io_bytes[G_IO_MAX][8];
 
@@ -231,7 +233,17 @@ static int io(int kind, int iscoll, int iswrite, long long off, const void *buf,
     g_last_io_bytes = (long long)count * type_size(t);
     if (iswrite && idx < G_IO_MAX && t == MPI_BYTE && count > 0 && count <= 8 && buf != NULL)
         for (int k = 0; k < 8; k++) g_io_bytes[idx][k] = (k < count) ? ((const unsigned char *)buf)[k] : 0;
-    if (!iswrite && count > 0 && g_last_io_bytes > 0 && predefined_size(t) >= 0)
+    g_last_got = -1;
+    if (!iswrite && g_file_mode) {
+        /* deterministic file content: copy what exists, report a short read */
+        long long got = 0;
+        for (long long k = 0; k < g_last_io_bytes; k++) {
+            long long o = off + k;
+            if (o >= 0 && o < g_file_len && o < G_FILE_MAX) { ((unsigned char *)buf)[k] = g_file[o]; got = k + 1; }
+        }
+        g_last_got = got;
+    }
+    else if (!iswrite && count > 0 && g_last_io_bytes > 0 && predefined_size(t) >= 0)
         __CPROVER_havoc_slice((void *)buf, g_last_io_bytes);   /* a read delivers arbitrary bytes */
     if (idx == g_fail_at) { g_io_failed = 1; return g_fail_code; }
     return MPI_SUCCESS;
@@ -250,6 +262,6 @@ int MPI_Get_count(const MPI_Status *status, MPI_Datatype datatype, int *count)
     int c = nondet_int();
     long long lim = (datatype == MPI_BYTE) ? g_last_io_bytes : g_last_io_bytes;
     __CPROVER_assume(c >= 0 && (long long)c <= lim);
-    *count = (g_get_count >= 0) ? g_get_count : c;
+    *count = (g_last_got >= 0) ? (int)g_last_got : (g_get_count >= 0) ? g_get_count : c;
     return MPI_SUCCESS;
 }
